@@ -72,6 +72,9 @@ def consumers_script(p, kind):
         L += ["print %s.sum()" % e, "print %s.product()" % e if False else "print 0", "print %s.min()" % e, "print %s.max()" % e,
               "print %s.min_max()" % e, "print %s.fold(100, |a, x| a - x)" % e]
     L.append("n = 0\nfor x in %s\n  n += 1\nprint n" % e)
+    # docs/core_lib/iterator.md: last, count, to_tuple consume the iterator -- nothing is left afterwards
+    for cons in ("last", "count", "to_tuple"):
+        L.append("it = %s\nit.%s()\nprint it.next()" % (e, cons))
     return "\n".join(L) + "\n"
 
 
@@ -91,6 +94,7 @@ def consumers_expected(p):
         E += [str(p["sum"]), "0", str(p["minv"]) if allv else "null", str(p["maxv"]) if allv else "null",
               "(%d, %d)" % (p["minv"], p["maxv"]) if allv else "null", str(acc)]
     E.append(str(p["count"]))
+    E += ["null", "null", "null"]
     return E
 
 
